@@ -331,6 +331,7 @@ def dispatch(ctx, fi, R):
 
 
 MUTANTS = [
+    Mutant('held notes lower total_time again (the defect fixed in 0c8a8f3)', F, "      # Never shorten the sequence: a drum note (not an event here) may end\n      # after the last pitched note or pedal event.\n      if time > sequence.total_time:\n        sequence.total_time = time\n", "      sequence.total_time = time\n", rule='PAIR/end-total'),
     Mutant('seed C14_c: quantized = the resolution oneof is set (an explicit 0 counts)', F, "  return (note_sequence.quantization_info.steps_per_quarter > 0 or\n          note_sequence.quantization_info.steps_per_second > 0)", "  return note_sequence.quantization_info.WhichOneof('resolution') is not None", rule='ESC/quantized-definition'),
     Mutant('note-on before sustain-off at equal times', F, '_SUSTAIN_ON = 0\n_SUSTAIN_OFF = 1\n_NOTE_ON = 2\n_NOTE_OFF = 3', '_SUSTAIN_ON = 0\n_SUSTAIN_OFF = 2\n_NOTE_ON = 1\n_NOTE_OFF = 3', rule='RANK/chain'),
     Mutant('note-off before note-on', F, '_NOTE_ON = 2\n_NOTE_OFF = 3', '_NOTE_ON = 3\n_NOTE_OFF = 2', rule='RANK/chain'),
